@@ -84,7 +84,14 @@ func genTimeoutHeader(c *Chooser) (string, string) {
 	case 4:
 		return "99999999" + string(unit), "max-eight-digits"
 	case 5:
-		return "000" + digits(1+c.Intn(5, "tlen")) + string(unit), "leading-zeros"
+		// (no draw of its own, so that older replays keep their meaning: the
+		// longest variant of this class is the all-zero value)
+		n := 1 + c.Intn(5, "tlen")
+		if n == 5 {
+			// well-formed, encodes zero: the deadline is the instant of arrival
+			return Pick(c, "tzero", "0", "000", "00000000") + string(unit), "zero"
+		}
+		return "000" + digits(n) + string(unit), "leading-zeros"
 	case 6:
 		return digits(9+c.Intn(12, "tlong")) + string(unit), "more-than-eight-digits"
 	case 7:
